@@ -106,4 +106,300 @@ Proof.
   destruct HI as (Hlen & _ & _ & Hrows). cbn [fst] in *. split; auto. intros i Hi. apply Hrows. lia.
 Qed.
 
+(* ------------------------------------------------------------------ element-level view of the work matrices *)
+
+Lemma mset_Ok_inv (au au' : matrix) mm i s v :
+  cols au = mm -> s < mm -> mset au i s v = Ok au' ->
+  cols au' = mm /\ rows au' = rows au /\
+  forall i' s', s' < mm ->
+    mat_at au' mm i' s' = if (i' =? i) && (s' =? s) then v else mat_at au mm i' s'.
+Proof.
+  intros Hc Hs H. unfold mset in H. rewrite Hc in H.
+  apply bind_ok in H as (b & Hb & H). injection H as <-. apply upd_Ok_inv in Hb as (Hl & ->).
+  cbn [cols rows buf]. repeat split; auto.
+  intros i' s' Hs'. unfold mat_at; cbn [buf]. rewrite nth_upd_list by auto.
+  destruct (Nat.eqb_spec (i' * mm + s') (i * mm + s)) as [E|E].
+  - apply flat_inj in E as (-> & ->); auto. now rewrite !Nat.eqb_refl.
+  - destruct (Nat.eqb_spec i' i) as [->|]; cbn [andb]; auto.
+    destruct (Nat.eqb_spec s' s) as [->|]; auto. congruence.
+Qed.
+
+(* swap_elem on two slots of the same column in different rows *)
+Lemma swap_elem_Ok_inv (au au' : matrix) mm k p j :
+  cols au = mm -> j < mm -> swap_elem au k j p j = Ok au' ->
+  cols au' = mm /\
+  forall i s, s < mm ->
+    mat_at au' mm i s =
+      if (i =? k) && (s =? j) then mat_at au mm p j
+      else if (i =? p) && (s =? j) then mat_at au mm k j
+      else mat_at au mm i s.
+Proof.
+  intros Hc Hj H. unfold swap_elem in H.
+  apply bind_ok in H as (temp & Et & H). apply (mget_Ok_inv _ mm) in Et as (-> & _); auto.
+  apply bind_ok in H as (old2 & Eo & H). apply (mget_Ok_inv _ mm) in Eo as (-> & _); auto.
+  apply bind_ok in H as (m1 & E1 & H).
+  apply (mset_Ok_inv _ _ mm) in E1 as (Hc1 & _ & H1); auto.
+  apply (mset_Ok_inv _ _ mm) in H as (Hc2 & _ & H2); auto.
+  split; auto. intros i s Hs. rewrite H2, H1 by auto. reflexivity.
+Qed.
+
+Lemma swap_band_rows_Ok_inv (au au' : matrix) mm k p :
+  cols au = mm -> swap_band_rows mm au k p = Ok au' ->
+  cols au' = mm /\
+  forall i s, s < mm ->
+    mat_at au' mm i s = if i =? k then mat_at au mm p s else if i =? p then mat_at au mm k s else mat_at au mm i s.
+Proof.
+  intros Hc H. unfold swap_band_rows in H.
+  assert (HI : cols au' = mm /\ forall i s, s < mm ->
+            mat_at au' mm i s = if s <? mm then
+              (if i =? k then mat_at au mm p s else if i =? p then mat_at au mm k s else mat_at au mm i s)
+              else mat_at au mm i s).
+  { refine (for_inv_partial (fun j (a : matrix) => cols a = mm /\ forall i s, s < mm ->
+              mat_at a mm i s = if s <? j then
+                (if i =? k then mat_at au mm p s else if i =? p then mat_at au mm k s else mat_at au mm i s)
+                else mat_at au mm i s) 0 mm _ au au' (Nat.le_0_l _) _ _ H).
+    - split; auto.
+    - intros j a a1 Hj (Hca & Ha) E.
+      apply (swap_elem_Ok_inv _ _ mm) in E as (Hc1 & H1); auto; [|lia].
+      split; auto. intros i s Hs. rewrite H1 by auto.
+      destruct (Nat.eqb_spec s j) as [->|Hne].
+      + rewrite !Ha by auto. rewrite Nat.ltb_irrefl.
+        replace (j <? S j) with true by (symmetry; apply Nat.ltb_lt; lia).
+        destruct (Nat.eqb_spec i k) as [->|]; cbn [andb]; auto.
+        destruct (Nat.eqb_spec i p) as [->|]; cbn [andb]; auto.
+      + rewrite !andb_false_r. rewrite Ha by auto.
+        destruct (Nat.ltb_spec s j); destruct (Nat.ltb_spec s (S j)); try lia; auto. }
+  destruct HI as (Hc' & H'). split; auto. intros i s Hs. rewrite H' by auto.
+  now replace (s <? mm) with true by (symmetry; apply Nat.ltb_lt; auto).
+Qed.
+
+(* ---- elimination of one row ---- *)
+
+(* the multiplier the repaired code stores for row i at stage k *)
+Definition mult_of (au : matrix) (mm k i : nat) : T :=
+  if eqb (mat_at au mm k 0) zero then zero else mul (mat_at au mm i 0) (inv (mat_at au mm k 0)).
+
+Lemma multiplier_Ok_inv (au : matrix) mm k i m :
+  cols au = mm -> multiplier false au k i = Ok m -> m = mult_of au mm k i.
+Proof.
+  intros Hc H. unfold multiplier in H. unfold mult_of.
+  apply bind_ok in H as (akk & Ek & H). apply (mget_Ok_inv _ mm) in Ek as (-> & _); auto.
+  destruct (eqb (mat_at au mm k 0) zero) eqn:E; [now injection H as <-|].
+  apply bind_ok in H as (aik & Ei & H). apply (mget_Ok_inv _ mm) in Ei as (-> & _); auto.
+  apply bind_ok in H as (akk & Ek & H). apply (mget_Ok_inv _ mm) in Ek as (-> & _); auto.
+  apply div_Ok_inv in H as (_ & ->). reflexivity.
+Qed.
+
+(* row i after its elimination against row k: shifted one slot to the left, zero appended *)
+Definition elim_new (au : matrix) (mm k i : nat) (s : nat) : T :=
+  if s <? mm - 1 then sub (mat_at au mm i (s + 1)) (mul (mult_of au mm k i) (mat_at au mm k (s + 1))) else zero.
+
+Lemma elim_row_Ok_inv (au al au' al' : matrix) mm m1 k i :
+  cols au = mm -> cols al = m1 -> 1 <= mm -> i <> k -> i - k - 1 < m1 ->
+  elim_row false mm k i (au, al) = Ok (au', al') ->
+  cols au' = mm /\ cols al' = m1 /\
+  (forall i' s, s < mm -> mat_at au' mm i' s = if i' =? i then elim_new au mm k i s else mat_at au mm i' s) /\
+  (forall i' t, t < m1 -> mat_at al' m1 i' t =
+      if (i' =? k) && (t =? i - k - 1) then mult_of au mm k i else mat_at al m1 i' t).
+Proof.
+  intros Hc Hcl Hmm Hik Ht H. unfold elim_row in H.
+  apply bind_ok in H as (dum & Em & H). apply (multiplier_Ok_inv _ mm) in Em; auto. subst dum.
+  apply bind_ok in H as (al1 & Eal & H). apply (mset_Ok_inv _ _ m1) in Eal as (Hcl1 & _ & Hal1); auto.
+  apply bind_ok in H as (au1 & Eloop & H).
+  apply bind_ok in H as (au2 & Elast & H). injection H as <- <-.
+  set (m := mult_of au mm k i) in *.
+  assert (HI : cols au1 = mm /\ forall i' s, s < mm ->
+            mat_at au1 mm i' s = if (i' =? i) && (s <? mm - 1)
+                                 then sub (mat_at au mm i (s + 1)) (mul m (mat_at au mm k (s + 1)))
+                                 else mat_at au mm i' s).
+  { refine (for_inv_partial (fun j (a : matrix) => cols a = mm /\ forall i' s, s < mm ->
+              mat_at a mm i' s = if (i' =? i) && (s <? j - 1)
+                                 then sub (mat_at au mm i (s + 1)) (mul m (mat_at au mm k (s + 1)))
+                                 else mat_at au mm i' s) 1 mm _ au au1 Hmm _ _ Eloop).
+    - split; auto. intros i' s Hs. cbn. now rewrite andb_false_r.
+    - intros j a a1 Hj (Hca & Ha) E.
+      apply bind_ok in E as (aij & Eij & E). apply (mget_Ok_inv _ mm) in Eij as (-> & _); auto.
+      apply bind_ok in E as (akj & Ekj & E). apply (mget_Ok_inv _ mm) in Ekj as (-> & _); auto.
+      apply (mset_Ok_inv _ _ mm) in E as (Hc1 & _ & H1); auto; [|lia].
+      split; auto. intros i' s Hs. rewrite H1 by auto. rewrite !Ha by lia.
+      rewrite Nat.eqb_refl. cbn [andb].
+      replace (k =? i) with false by (symmetry; apply Nat.eqb_neq; auto). cbn [andb].
+      replace (j <? j - 1) with false by (symmetry; apply Nat.ltb_ge; lia).
+      destruct (Nat.eqb_spec i' i) as [->|]; cbn [andb]; auto.
+      destruct (Nat.eqb_spec s (j - 1)) as [->|].
+      + replace (j - 1 <? S j - 1) with true by (symmetry; apply Nat.ltb_lt; lia).
+        now replace (j - 1 + 1) with j by lia.
+      + destruct (Nat.ltb_spec s (j - 1)); destruct (Nat.ltb_spec s (S j - 1)); try lia; auto. }
+  destruct HI as (Hc1 & H1).
+  apply (mset_Ok_inv _ _ mm) in Elast as (Hc2 & _ & H2); auto; [|lia].
+  repeat split; auto.
+  - intros i' s Hs. rewrite H2, H1 by auto. unfold elim_new. fold m.
+    destruct (Nat.eqb_spec i' i) as [->|]; cbn [andb]; auto.
+    destruct (Nat.eqb_spec s (mm - 1)) as [->|].
+    + now rewrite Nat.ltb_irrefl.
+    + replace (s <? mm - 1) with true by (symmetry; apply Nat.ltb_lt; lia). reflexivity.
+Qed.
+
+(* the elimination loop over the window rows k+1 .. l-1 *)
+Lemma elim_loop_Ok_inv (au al au' al' : matrix) mm m1 k l :
+  cols au = mm -> cols al = m1 -> 1 <= mm -> l <= k + 1 + m1 ->
+  for_ (k + 1) l (elim_row false mm k) (au, al) = Ok (au', al') ->
+  cols au' = mm /\ cols al' = m1 /\
+  (forall i s, s < mm -> mat_at au' mm i s =
+      if (k <? i) && (i <? l) then elim_new au mm k i s else mat_at au mm i s) /\
+  (forall i t, t < m1 -> mat_at al' m1 i t =
+      if (i =? k) && (k + 1 + t <? l) then mult_of au mm k (k + 1 + t) else mat_at al m1 i t).
+Proof.
+  intros Hc Hcl Hmm Hl H.
+  destruct (Nat.le_gt_cases (k + 1) l) as [Hkl|Hkl].
+  2:{ rewrite for_empty in H by lia. injection H as <- <-. repeat split; auto.
+      - intros i s Hs. replace ((k <? i) && (i <? l)) with false; auto.
+        symmetry. apply andb_false_iff. destruct (Nat.ltb_spec k i); destruct (Nat.ltb_spec i l); auto; lia.
+      - intros i t Ht. replace (k + 1 + t <? l) with false by (symmetry; apply Nat.ltb_ge; lia).
+        now rewrite andb_false_r. }
+  set (P := fun j (st : matrix * matrix) =>
+     cols (fst st) = mm /\ cols (snd st) = m1 /\
+     (forall i s, s < mm -> mat_at (fst st) mm i s =
+         if (k <? i) && (i <? j) then elim_new au mm k i s else mat_at au mm i s) /\
+     (forall i t, t < m1 -> mat_at (snd st) m1 i t =
+         if (i =? k) && (k + 1 + t <? j) then mult_of au mm k (k + 1 + t) else mat_at al m1 i t)).
+  assert (HP : P l (au', al')).
+  { refine (for_inv_partial P (k + 1) l _ (au, al) (au', al') Hkl _ _ H).
+    - unfold P; cbn [fst snd]. repeat split; auto.
+      + intros i s Hs. replace ((k <? i) && (i <? k + 1)) with false; auto.
+        symmetry. apply andb_false_iff. destruct (Nat.ltb_spec k i); destruct (Nat.ltb_spec i (k + 1)); auto; lia.
+      + intros i t Ht. replace (k + 1 + t <? k + 1) with false by (symmetry; apply Nat.ltb_ge; lia).
+        now rewrite andb_false_r.
+    - intros j [a b] [a1 b1] Hj (Hca & Hcb & Ha & Hb) E. cbn [fst snd] in *.
+      apply (elim_row_Ok_inv _ _ _ _ mm m1) in E as (Hc1 & Hcb1 & Ha1 & Hb1); auto; try lia.
+      unfold P; cbn [fst snd]. repeat split; auto.
+      + intros i s Hs. rewrite Ha1 by auto.
+        destruct (Nat.eqb_spec i j) as [->|Hne].
+        * replace ((k <? j) && (j <? S j)) with true
+            by (symmetry; apply andb_true_iff; split; apply Nat.ltb_lt; lia).
+          (* row j and row k of the current matrix are still those of au *)
+          assert (Hrow : forall u, u < mm -> mat_at a mm j u = mat_at au mm j u /\ mat_at a mm k u = mat_at au mm k u).
+          { intros u Hu. rewrite !Ha by auto.
+            replace ((k <? j) && (j <? j)) with false by (rewrite Nat.ltb_irrefl; now rewrite andb_false_r).
+            replace ((k <? k) && (k <? j)) with false by (rewrite Nat.ltb_irrefl; reflexivity). auto. }
+          unfold elim_new, mult_of.
+          destruct (Hrow 0) as (-> & ->); [lia|].
+          destruct (s <? mm - 1) eqn:Es; auto.
+          apply Nat.ltb_lt in Es. destruct (Hrow (s + 1)) as (-> & ->); [lia|]. reflexivity.
+        * rewrite Ha by auto.
+          destruct (Nat.ltb_spec k i); destruct (Nat.ltb_spec i j); destruct (Nat.ltb_spec i (S j)); cbn [andb]; auto; lia.
+      + intros i t Ht. rewrite Hb1 by auto.
+        destruct (Nat.eqb_spec i k) as [->|]; cbn [andb].
+        * destruct (Nat.eqb_spec t (j - k - 1)) as [->|Hne].
+          -- replace (k + 1 + (j - k - 1)) with j by lia.
+             replace (j <? S j) with true by (symmetry; apply Nat.ltb_lt; lia).
+             unfold mult_of. rewrite !Ha by lia.
+             replace ((k <? j) && (j <? j)) with false by (rewrite Nat.ltb_irrefl; now rewrite andb_false_r).
+             replace ((k <? k) && (k <? j)) with false by (rewrite Nat.ltb_irrefl; reflexivity).
+             reflexivity.
+          -- rewrite Hb by auto. rewrite Nat.eqb_refl. cbn [andb].
+             destruct (Nat.ltb_spec (k + 1 + t) j); destruct (Nat.ltb_spec (k + 1 + t) (S j)); auto; lia.
+        * rewrite Hb by auto. destruct (Nat.eqb_spec i k); [congruence|reflexivity]. }
+  exact HP.
+Qed.
+
+(* ---- the pivot search returns a row of the window and its leading entry ---- *)
+Lemma find_pivot_Ok_inv (au : matrix) mm k l dum p :
+  cols au = mm -> find_pivot false au k l = Ok (dum, p) ->
+  (p = k \/ (k < p /\ p < l)) /\ dum = mat_at au mm p 0.
+Proof.
+  intros Hc H. unfold find_pivot in H.
+  apply bind_ok in H as (d0 & E0 & H). apply (mget_Ok_inv _ mm) in E0 as (-> & _); auto.
+  destruct (Nat.le_gt_cases (k + 1) l) as [Hkl|Hkl].
+  2:{ rewrite for_empty in H by lia. injection H as <- <-. auto. }
+  refine (for_inv_partial (fun j (st : T * nat) =>
+            (snd st = k \/ (k < snd st /\ snd st < j)) /\ fst st = mat_at au mm (snd st) 0)
+            (k + 1) l _ (mat_at au mm k 0, k) (dum, p) Hkl _ _ H).
+  - cbn. auto.
+  - intros j [d i] [d1 i1] Hj (Hi & Hd) E. cbn [fst snd] in *.
+    apply bind_ok in E as (a & Ea & E). apply (mget_Ok_inv _ mm) in Ea as (-> & _); auto.
+    destruct (pivot_better false (mat_at au mm j 0) d); injection E as <- <-; cbn [fst snd].
+    + split; auto. right. lia.
+    + split; auto. destruct Hi as [->|Hi]; [auto|right; lia].
+Qed.
+
+(* ---- function-level versions (rows as functions of the slot) ---- *)
+
+Definition mult_f (a : nat -> nat -> T) (k i : nat) : T :=
+  if eqb (a k 0) zero then zero else mul (a i 0) (inv (a k 0)).
+Definition elim_f (a : nat -> nat -> T) (mm k i s : nat) : T :=
+  if s <? mm - 1 then sub (a i (s + 1)) (mul (mult_f a k i) (a k (s + 1))) else zero.
+
+Lemma mult_of_ext (au : matrix) mm (a : nat -> nat -> T) k i :
+  1 <= mm -> (forall r s, s < mm -> mat_at au mm r s = a r s) -> mult_of au mm k i = mult_f a k i.
+Proof. intros Hmm H. unfold mult_of, mult_f. now rewrite !H by lia. Qed.
+
+Lemma elim_new_ext (au : matrix) mm (a : nat -> nat -> T) k i s :
+  1 <= mm -> (forall r s, s < mm -> mat_at au mm r s = a r s) -> elim_new au mm k i s = elim_f a mm k i s.
+Proof.
+  intros Hmm H. unfold elim_new, elim_f. rewrite (mult_of_ext au mm a) by auto.
+  destruct (Nat.ltb_spec s (mm - 1)); auto. now rewrite !H by lia.
+Qed.
+
+(* exchange of the rows k and p *)
+Definition swp (k p i : nat) : nat := if i =? k then p else if i =? p then k else i.
+
+(* the window bound after the increment of stage k *)
+Definition lnext (n l : nat) : nat := if l <? n then l + 1 else l.
+
+(* ---- one stage of decompose whose pivot ends up nonzero ---- *)
+Lemma dec_step_Ok_inv n mm m1 k (au al : matrix) (index : list nat) (d : T) l
+      (au' al' : matrix) (index' : list nat) (d' : T) l' :
+  cols au = mm -> cols al = m1 -> 1 <= mm -> lnext n l <= k + 1 + m1 ->
+  dec_step false n mm k (au, al, index, d, l) = Ok (au', al', index', d', l') ->
+  mat_at au' mm k 0 <> zero ->
+  exists p,
+    (p = k \/ (k < p /\ p < l')) /\ l' = lnext n l /\ cols au' = mm /\ cols al' = m1 /\
+    k < length index /\ index' = upd_list index k (p + 1) /\
+    let a2 := fun i s => mat_at au mm (swp k p i) s in
+    a2 k 0 <> zero /\
+    (forall i s, s < mm -> mat_at au' mm i s = if (k <? i) && (i <? l') then elim_f a2 mm k i s else a2 i s) /\
+    (forall i t, t < m1 -> mat_at al' m1 i t =
+        if (i =? k) && (k + 1 + t <? l') then mult_f a2 k (k + 1 + t) else mat_at al m1 i t).
+Proof.
+  intros Hc Hcl Hmm Hl H Hpiv. unfold dec_step in H. fold (lnext n l) in H.
+  apply bind_ok in H as ([dum p] & Ep & H). apply (find_pivot_Ok_inv _ mm) in Ep as (Hp & Hdum); auto.
+  apply bind_ok in H as (index1 & Ei & H). apply upd_Ok_inv in Ei as (Hki & ->).
+  apply bind_ok in H as (au1 & E1 & H).
+  apply bind_ok in H as ([au2 d2] & E2 & H).
+  apply bind_ok in H as ([au3 al3] & E3 & H). injection H as <- <- <- <- <-.
+  (* au2: rows k and p of au1 exchanged *)
+  assert (H2 : cols au1 = mm -> cols au2 = mm /\ forall i s, s < mm -> mat_at au2 mm i s = mat_at au1 mm (swp k p i) s).
+  { intros Hc1. destruct (Nat.eqb_spec p k) as [->|Hpk]; cbn [negb] in E2.
+    - injection E2 as <- <-. split; auto. intros i s Hs. unfold swp.
+      destruct (Nat.eqb_spec i k) as [->|]; auto.
+    - apply bind_ok in E2 as (au2' & Esw & E2). injection E2 as <- <-.
+      apply (swap_band_rows_Ok_inv _ _ mm) in Esw as (Hc2 & Hsw); auto.
+      split; auto. intros i s Hs. rewrite Hsw by auto. unfold swp.
+      destruct (i =? k); auto. destruct (i =? p); auto. }
+  (* the `dum == 0` line: a no-op when the pivot ends up nonzero *)
+  assert (Hau1 : au1 = au).
+  { destruct (eqb dum zero) eqn:Ez; [|now injection E1 as <-]. exfalso.
+    apply (fl_eqb A FL) in Ez.
+    apply (mset_Ok_inv _ _ mm) in E1 as (Hc1 & _ & H1); auto; try lia.
+    destruct (H2 Hc1) as (Hc2 & H2').
+    apply (elim_loop_Ok_inv _ _ _ _ mm m1) in E3 as (_ & _ & H3 & _); auto.
+    apply Hpiv. rewrite H3 by lia. rewrite Nat.ltb_irrefl. cbn [andb].
+    rewrite H2' by lia. unfold swp. rewrite Nat.eqb_refl. rewrite H1 by lia.
+    destruct (Nat.eqb_spec p k) as [->|]; cbn [andb]; auto. congruence. }
+  subst au1. destruct (H2 Hc) as (Hc2 & H2').
+  apply (elim_loop_Ok_inv _ _ _ _ mm m1) in E3 as (Hc3 & Hcl3 & H3 & Hal3); auto.
+  exists p. split; [exact Hp|]. split; [reflexivity|]. split; [auto|]. split; [auto|]. split; [auto|].
+  split; [reflexivity|]. cbn zeta.
+  assert (Hk0 : mat_at au3 mm k 0 = mat_at au mm (swp k p k) 0).
+  { rewrite H3 by lia. rewrite Nat.ltb_irrefl. cbn [andb]. apply H2'. lia. }
+  split; [now rewrite <- Hk0|]. split.
+  - intros i s Hs. rewrite H3 by auto.
+    destruct ((k <? i) && (i <? lnext n l)); [|now apply H2'].
+    now apply elim_new_ext.
+  - intros i t Ht. rewrite Hal3 by auto.
+    destruct ((i =? k) && (k + 1 + t <? lnext n l)); auto.
+    now apply mult_of_ext.
+Qed.
+
 End LU.
